@@ -156,6 +156,51 @@ def _yield_from(stmts, func):
     return out if changed else None
 
 
+# ---------------------------------------------------------------------------------------------- chain(A, B)
+def _chain_loop(stmts, func):
+    """for x in chain(A, B): body  ->  for x in A: body; for x in B: body   (B.. pure and not re-bound by the body; no
+    break / else, which would tell the two forms apart)"""
+    out = []
+    changed = False
+    # cycle = chain(A, B) directly before `for x in cycle:` (the only read of cycle)
+    for i in range(len(stmts) - 1):
+        a, b = stmts[i], stmts[i + 1]
+        if isinstance(a, ast.Assign) and len(a.targets) == 1 and isinstance(a.targets[0], ast.Name) \
+                and isinstance(a.value, ast.Call) and ast.unparse(a.value.func) in ('chain', 'itertools.chain') \
+                and isinstance(b, ast.For) and isinstance(b.iter, ast.Name) and b.iter.id == a.targets[0].id \
+                and sum(1 for n in ast.walk(func) if isinstance(n, ast.Name) and n.id == b.iter.id) == 2:
+            b.iter = a.value
+            return stmts[:i] + stmts[i + 1:]
+    for s in stmts:
+        if isinstance(s, ast.For) and not s.orelse and isinstance(s.iter, ast.Call) and not s.iter.keywords \
+                and len(s.iter.args) >= 2 and ast.unparse(s.iter.func) in ('chain', 'itertools.chain') \
+                and not any(isinstance(a, ast.Starred) for a in s.iter.args):
+            brk = False
+            stack = list(s.body)
+            while stack:
+                x = stack.pop()
+                if isinstance(x, ast.Break):
+                    brk = True
+                if isinstance(x, (ast.For, ast.While) + _DEF):
+                    continue
+                for f_ in ('body', 'orelse', 'finalbody'):
+                    stack.extend(getattr(x, f_, []) or [])
+                for h in getattr(x, 'handlers', []) or []:
+                    stack.extend(h.body)
+            st = _stores(s.body)
+            rest_ok = all(_pure_value(a) and not any(isinstance(n, ast.Name) and n.id in st for n in ast.walk(a))
+                          for a in s.iter.args[1:])
+            if not brk and rest_ok:
+                for a in s.iter.args:
+                    lp = copy.deepcopy(s)
+                    lp.iter = a
+                    out.append(lp)
+                changed = True
+                continue
+        out.append(s)
+    return out if changed else None
+
+
 # ---------------------------------------------------------------------------------------------- any / all
 def _anyall_test(e):
     """In a truth-test position: any((a, b, c)) == a or b or c, all([a, b]) == a and b  for simple reads a, b, c."""
@@ -517,7 +562,7 @@ class Unroll(object):
                     and isinstance(s.value, (ast.Tuple, ast.List)):
                 self.modconsts[s.targets[0].id] = s.value
 
-    def seq(self, e, func, cls):
+    def seq(self, e, func, cls, body=None):
         d = None
         if isinstance(e, (ast.Tuple, ast.List)):
             d = e
@@ -556,7 +601,14 @@ class Unroll(object):
                         def visit_Lambda(self_, n):
                             return n
                     d = Q().visit(copy.deepcopy(s.value))
-        if d is None or not d.elts or len(d.elts) > 8 or not all(_const_elt(x) for x in d.elts):
+        if d is None or not d.elts or len(d.elts) > 8:
+            return None
+        if not all(_const_elt(x) for x in d.elts):
+            # a display written at the loop itself may also list plain locals, as long as the loop body leaves them alone
+            if d is e and body is not None and all(_const_elt(x) or isinstance(x, ast.Name) for x in d.elts):
+                st = _stores(body)
+                if not any(isinstance(x, ast.Name) and x.id in st for x in d.elts):
+                    return d
             return None
         return d
 
@@ -565,7 +617,7 @@ class Unroll(object):
         changed = False
         for s in stmts:
             if isinstance(s, ast.For) and not s.orelse:
-                d = self.seq(s.iter, func, cls)
+                d = self.seq(s.iter, func, cls, s.body)
                 tnames = None
                 if isinstance(s.target, ast.Name):
                     tnames = [s.target.id]
@@ -1669,6 +1721,7 @@ def simple_passes(modules, log):
                 changed = True
             for name, f in (('yield from modelled as a loop', _yield_from),
                             ('next(iter(E), D) written as a loop', _next_default),
+                            ('loop over chain(A, B) split', _chain_loop),
                             ('yield of a conditional value split', _yield_ifexp),
                             ('assignment expression hoisted', _dewalrus),
                             ('constant loop unrolled', lambda b, f_, cls=cls: ur.block(b, f_, cls)),
